@@ -616,7 +616,7 @@ def evaluate__value_comparison_operators(self: XPathToken, context: ta.ContextTy
 
     operands[:] = self.implicit_timezone_operands(context, *operands)
     try:
-        return cast(bool, getattr(operator, self.symbol)(*operands))
+        return self.collation_operator(getattr(operator, self.symbol))(*operands)
     except TypeError as err:
         raise self.error('XPTY0004', err) from None
 
